@@ -232,7 +232,8 @@ int main() {
         Evaluator ev(f[2]);
         auto d = std::dynamic_pointer_cast<Evaluator>(ev.differentiate(f[0]));
         bind(*d, f[1]);
-        std::cout << "val " << hexbits(d->getValue()) << std::endl;
+        const auto v = d->getValue();
+        std::cout << "val " << hexbits(v) << std::endl;
       } else {
         std::cout << "bad-op" << std::endl;
       }
